@@ -93,6 +93,15 @@ Qed.
 Lemma same_tree_is_parent : forall s s' c, same_tree s s' -> is_parent c s' = is_parent c s.
 Proof. unfold same_tree, is_parent. intros s s' c H. destruct H as (_ & E1 & _). rewrite E1. reflexivity. Qed.
 
+Lemma advertise_cases : forall s,
+  (session s = false /\ advertise s = s) \/
+  (session s = true /\ held (tell_server s) = true /\ advertise s = push KSet (tell_server s)) \/
+  (session s = true /\ held (tell_server s) = false /\ advertise s = notify_children (tell_server s)).
+Proof.
+  intros s. unfold advertise. destruct (session s); [|left; tauto]. right.
+  destruct (held (tell_server s)); [left|right]; tauto.
+Qed.
+
 (* ------------------------------------------------------------------ children never grow except in add_child *)
 Definition shrinks (s s' : state) : Prop := incl (children s') (children s).
 
@@ -140,21 +149,23 @@ Proof.
   eapply shrinks_trans; [|apply shrinks_on_closed]. peel.
 Qed.
 
+Lemma shrinks_advertise : forall s, shrinks s (advertise s).
+Proof.
+  intros s. destruct (advertise_cases s) as [[_ E]|[(_ & _ & E)|(_ & _ & E)]]; rewrite E; peel.
+Qed.
+
 Lemma shrinks_do_set_parent : forall c s, shrinks s (do_set_parent c s).
 Proof.
-  intros c s. unfold do_set_parent.
-  match goal with |- shrinks _ (if session ?s2 then _ else _) => set (s2' := s2) end.
-  assert (H2 : shrinks s s2') by (intros x H; exact H).
-  destruct (session s2'); [|exact H2].
-  destruct (held (tell_server s2')); (eapply shrinks_trans; [exact H2|]); peel.
+  intros c s. unfold do_set_parent. eapply shrinks_trans; [|apply shrinks_advertise]. intros x H; exact H.
 Qed.
 
 Lemma shrinks_after_announce : forall c s, shrinks s (after_announce c s).
 Proof.
-  intros c s. unfold after_announce. destruct (is_parent c s); [apply shrinks_notify_children|].
-  destruct (find_peer c s) as [p|]; [|apply shrinks_refl].
-  destruct (complete p); [|apply shrinks_refl].
-  destruct (is_none (parent s)); [apply shrinks_do_set_parent | apply shrinks_close_peer].
+  intros c s. unfold after_announce. destruct (is_parent c s).
+  - destruct parent_update_tells_server; [apply shrinks_advertise | apply shrinks_notify_children].
+  - destruct (find_peer c s) as [p|]; [|apply shrinks_refl].
+    destruct (complete p); [|apply shrinks_refl].
+    destruct (take_as_parent _ _); [apply shrinks_do_set_parent | apply shrinks_close_peer].
 Qed.
 
 Lemma shrinks_fold_on_closed : forall cs s, shrinks s (fold_left (fun a c => on_closed c a) cs s).
@@ -331,21 +342,22 @@ Proof.
     rewrite Nat.eqb_refl in P. discriminate.
 Qed.
 
+Lemma tree_eq_advertise : forall s, tree_eq s (advertise s).
+Proof.
+  intros s. destruct (advertise_cases s) as [[_ E]|[(_ & _ & E)|(_ & _ & E)]]; rewrite E.
+  - unfold tree_eq; tauto.
+  - unfold tree_eq, push. cbn. destruct (same_tree_tell_server s) as (_ & E1 & E2 & _ & E3 & _). tauto.
+  - apply same_tree_tree_eq. eapply same_tree_trans; [apply same_tree_tell_server | apply same_tree_notify_children].
+Qed.
+
 Lemma tree_inv_do_set_parent : forall c s, tree_inv s -> live c s = true -> ~ In c (children s) -> tree_inv (do_set_parent c s).
 Proof.
   intros c s (H1 & H2 & H3) L Hc. unfold do_set_parent.
-  match goal with |- tree_inv (if session ?s2 then _ else _) => set (s2' := s2) end.
-  assert (T2 : tree_inv s2').
-  { subst s2'. unfold tree_inv, live, emit, keepers. cbn. split; [exact H1|split].
-    - intros x Hx. apply memn_In. apply filter_In. split; [apply memn_In, H2; exact Hx|]. apply memn_In. right; exact Hx.
-    - intros p Ep. inversion Ep; subst p. split; [|exact Hc]. apply memn_In. apply filter_In. split; [apply memn_In; exact L|].
-      apply memn_In. left; reflexivity. }
-  destruct (session s2'); [|exact T2].
-  destruct (held (tell_server s2')).
-  - eapply tree_inv_eq; [|exact T2]. unfold tree_eq, push. cbn.
-    destruct (same_tree_tell_server s2') as (_ & E1 & E2 & _ & E3 & _). tauto.
-  - eapply tree_inv_eq; [|exact T2]. apply same_tree_tree_eq.
-    eapply same_tree_trans; [apply same_tree_tell_server | apply same_tree_notify_children].
+  eapply tree_inv_eq; [apply tree_eq_advertise|].
+  unfold tree_inv, live, emit, keepers. cbn. split; [exact H1|split].
+  - intros x Hx. apply memn_In. apply filter_In. split; [apply memn_In, H2; exact Hx|]. apply memn_In. right; exact Hx.
+  - intros p Ep. inversion Ep; subst p. split; [|exact Hc]. apply memn_In. apply filter_In. split; [apply memn_In; exact L|].
+    apply memn_In. left; reflexivity.
 Qed.
 
 Lemma tree_inv_upd_peer : forall c f s, tree_inv s -> tree_inv (upd_peer c f s).
@@ -354,12 +366,19 @@ Proof. intros. eapply tree_inv_eq; [|eassumption]. unfold tree_eq, upd_peer. cbn
 Lemma live_upd_peer : forall c f x s, live x (upd_peer c f s) = live x s.
 Proof. reflexivity. Qed.
 
-Lemma tree_inv_after_announce : forall c s, tree_inv s -> live c s = true -> ~ In c (children s) -> tree_inv (after_announce c s).
+(* generated condition of _check_if_new_parent: a connection that is a child is never taken as parent *)
+Lemma take_as_parent_not_child : forall hp ic, take_as_parent hp ic = true -> ic = false.
+Proof. intros hp ic. unfold take_as_parent. destruct hp, ic; cbn; congruence. Qed.
+
+Lemma tree_inv_after_announce : forall c s, tree_inv s -> live c s = true -> tree_inv (after_announce c s).
 Proof.
-  intros c s H L Hc. unfold after_announce. destruct (is_parent c s).
-  - eapply tree_inv_eq; [apply same_tree_tree_eq, same_tree_notify_children | exact H].
+  intros c s H L. unfold after_announce. destruct (is_parent c s).
+  - destruct parent_update_tells_server.
+    + eapply tree_inv_eq; [apply tree_eq_advertise | exact H].
+    + eapply tree_inv_eq; [apply same_tree_tree_eq, same_tree_notify_children | exact H].
   - destruct (find_peer c s) as [p|]; [|exact H]. destruct (complete p); [|exact H].
-    destruct (is_none (parent s)); [apply tree_inv_do_set_parent; assumption | apply tree_inv_close_peer; exact H].
+    destruct (take_as_parent _ _) eqn:T; [|apply tree_inv_close_peer; exact H].
+    apply take_as_parent_not_child in T. apply memn_false in T. apply tree_inv_do_set_parent; assumption.
 Qed.
 
 Lemma tree_inv_run_cont : forall k s, tree_inv s -> tree_inv (run_cont s k).
@@ -415,9 +434,9 @@ Proof.
   destruct (parent s2); [apply tree_inv_close_peer; exact T2 | exact T2].
 Qed.
 
-Lemma tree_inv_step : forall s e, tree_inv s -> child_announces s e = false -> tree_inv (step s e).
+Lemma tree_inv_step : forall s e, tree_inv s -> tree_inv (step s e).
 Proof.
-  intros s0 e H0 Hn.
+  intros s0 e H0.
   assert (H : tree_inv (set_outs [] s0)) by (eapply tree_inv_eq; [|exact H0]; unfold tree_eq; cbn; tauto).
   assert (Hch : children (set_outs [] s0) = children s0) by reflexivity.
   unfold step. set (s := set_outs [] s0) in *. destruct e.
@@ -451,15 +470,13 @@ Proof.
   - (* BranchLevel *)
     unfold on_branch_level. destruct (registered c s && live c s) eqn:G; [|exact H].
     apply andb_true_iff in G. destruct G as [_ L].
-    apply tree_inv_after_announce; [apply tree_inv_upd_peer; exact H | exact L |].
-    simpl in Hn. apply memn_false in Hn. exact Hn.
+    apply tree_inv_after_announce; [apply tree_inv_upd_peer; exact H | exact L].
   - (* BranchRoot *)
     unfold on_branch_root. destruct (live c s) eqn:L; simpl; [|exact H].
-    simpl in Hn. apply memn_false in Hn.
     destruct (find_peer c s) as [p|]; [|exact H].
     destruct (proot p) as [r0|].
-    + destruct (Nat.eqb r0 r); [exact H|]. apply tree_inv_after_announce; [apply tree_inv_upd_peer; exact H | exact L | exact Hn].
-    + apply tree_inv_after_announce; [apply tree_inv_upd_peer; exact H | exact L | exact Hn].
+    + destruct (Nat.eqb r0 r); [exact H|]. apply tree_inv_after_announce; [apply tree_inv_upd_peer; exact H | exact L].
+    + apply tree_inv_after_announce; [apply tree_inv_upd_peer; exact H | exact L].
   - apply tree_inv_close_peer; exact H.
   - eapply tree_inv_eq; [|exact H]. unfold tree_eq; cbn; tauto.
   - eapply tree_inv_eq; [|exact H]. unfold tree_eq; cbn; tauto.
@@ -474,22 +491,11 @@ Qed.
 Lemma tree_inv_init : tree_inv init.
 Proof. unfold tree_inv, init. cbn. split; [constructor|split]; [intros c []|intros p; discriminate]. Qed.
 
-Lemma tree_inv_run : forall evs s, tree_inv s -> along (fun s e => negb (child_announces s e)) s evs = true -> tree_inv (run s evs).
-Proof.
-  induction evs as [|e evs IH]; intros s H A; simpl in *; [exact H|].
-  apply andb_true_iff in A. destruct A as [A1 A2]. apply negb_true_iff in A1.
-  apply IH; [apply tree_inv_step; assumption | exact A2].
-Qed.
+Lemma tree_inv_run : forall evs s, tree_inv s -> tree_inv (run s evs).
+Proof. induction evs as [|e evs IH]; intros s H; simpl; [exact H|]. apply IH, tree_inv_step, H. Qed.
 
-(* F10: a connected child that announces level and root becomes the parent and stays a child *)
+(* the history that made a child the parent before F10 was repaired: the child is disconnected *)
 Definition f10_witness : list event := [SessionInit; PeerInit 1%nat 1%nat false; BranchLevel 1%nat 2; BranchRoot 1%nat 5%nat].
-
-Lemma tree_inv_refuted : exists evs, ~ tree_inv (run init evs).
-Proof.
-  exists f10_witness. intros (_ & _ & H3).
-  assert (E : parent (run init f10_witness) = Some 1%nat) by (vm_compute; reflexivity).
-  destruct (H3 _ E) as [_ N]. apply N. vm_compute. left; reflexivity.
-Qed.
 
 (* ------------------------------------------------------------------ base invariant (unconditional) *)
 (* the parent is live; a connection whose close handler is suspended is not live.
@@ -560,28 +566,30 @@ Proof.
   intros p E _. apply A; [exact E|]. intros [E'|[]]. apply parent_on_closed_ne in E. congruence.
 Qed.
 
+Lemma base_advertise : forall s, base s -> base (advertise s).
+Proof.
+  intros s H. destruct (advertise_cases s) as [[_ E]|[(_ & _ & E)|(_ & _ & E)]]; rewrite E; [exact H| |].
+  - assert (H3 : base (tell_server s)) by (eapply base_exc_eq; [apply same_tree_base_eq, same_tree_tell_server | exact H]).
+    destruct H3 as (A' & B' & C'). split; [exact A'|split; [|exact C']]. intros x Hx. rewrite closing_push_set in Hx. apply B'; exact Hx.
+  - eapply base_exc_eq; [apply same_tree_base_eq; eapply same_tree_trans; [apply same_tree_tell_server | apply same_tree_notify_children] | exact H].
+Qed.
+
 Lemma base_do_set_parent : forall c s, base s -> live c s = true -> base (do_set_parent c s).
 Proof.
-  intros c s (A & B & _) L. unfold do_set_parent.
-  match goal with |- base (if session ?s2 then _ else _) => set (s2' := s2) end.
-  assert (H2 : base s2').
-  { subst s2'. unfold base, base_exc, live, closing, emit, keepers. cbn. split; [|split; [|intros d []]].
-    - intros p E _. inversion E; subst p. apply memn_In. apply filter_In. split; [apply memn_In; exact L|]. apply memn_In. left; reflexivity.
-    - intros x Hx. specialize (B x Hx). unfold live in B. apply not_true_is_false. intro M.
-      apply memn_filter in M. destruct M as [M _]. congruence. }
-  destruct (session s2'); [|exact H2].
-  assert (H3 : base (tell_server s2')) by (eapply base_exc_eq; [apply same_tree_base_eq, same_tree_tell_server | exact H2]).
-  destruct (held (tell_server s2')).
-  - destruct H3 as (A' & B' & C'). split; [exact A'|split; [|exact C']]. intros x Hx. rewrite closing_push_set in Hx. apply B'; exact Hx.
-  - eapply base_exc_eq; [apply same_tree_base_eq, same_tree_notify_children | exact H3].
+  intros c s (A & B & _) L. unfold do_set_parent. apply base_advertise.
+  unfold base, base_exc, live, closing, emit, keepers. cbn. split; [|split; [|intros d []]].
+  - intros p E _. inversion E; subst p. apply memn_In. apply filter_In. split; [apply memn_In; exact L|]. apply memn_In. left; reflexivity.
+  - intros x Hx. specialize (B x Hx). unfold live in B. apply not_true_is_false. intro M.
+    apply memn_filter in M. destruct M as [M _]. congruence.
 Qed.
 
 Lemma base_after_announce : forall c s, base s -> live c s = true -> base (after_announce c s).
 Proof.
   intros c s H L. unfold after_announce. destruct (is_parent c s).
-  - eapply base_exc_eq; [apply same_tree_base_eq, same_tree_notify_children | exact H].
+  - destruct parent_update_tells_server; [apply base_advertise; exact H|].
+    eapply base_exc_eq; [apply same_tree_base_eq, same_tree_notify_children | exact H].
   - destruct (find_peer c s) as [p|]; [|exact H]. destruct (complete p); [|exact H].
-    destruct (is_none (parent s)); [apply base_do_set_parent; assumption | apply base_close_peer; exact H].
+    destruct (take_as_parent _ _); [apply base_do_set_parent; assumption | apply base_close_peer; exact H].
 Qed.
 
 Lemma base_run_cont : forall k s, base s -> base (run_cont s k).
@@ -792,21 +800,32 @@ Proof.
   eapply kfr_K; [|exact H]. apply kfr_fields; reflexivity.
 Qed.
 
-Lemma K_do_set_parent : forall c s, server_truthful (do_set_parent c s).
+Lemma K_advertise : forall s, session s = true -> server_truthful (advertise s).
 Proof.
-  intros c s. unfold do_set_parent.
-  match goal with |- server_truthful (if session ?s2 then _ else _) => set (s2' := s2) end.
-  destruct (session s2') eqn:Hs; [|unfold server_truthful; rewrite Hs; discriminate].
-  destruct (held (tell_server s2')).
+  intros s Hs. destruct (advertise_cases s) as [[E _]|[(_ & _ & E)|(_ & _ & E)]]; [congruence| |]; rewrite E.
   - eapply kfr_K; [|apply K_tell_server]. apply kfr_fields; reflexivity.
   - eapply kfr_K; [apply kfr_notify_children | apply K_tell_server].
 Qed.
 
-Lemma K_after_announce : forall c s, server_truthful s -> is_parent c s = false -> server_truthful (after_announce c s).
+Lemma K_advertise_any : forall s, server_truthful (advertise s).
 Proof.
-  intros c s H P. unfold after_announce. rewrite P.
+  intros s. destruct (session s) eqn:Hs; [apply K_advertise; exact Hs|].
+  unfold advertise. rewrite Hs. unfold server_truthful. rewrite Hs. discriminate.
+Qed.
+
+Lemma K_do_set_parent : forall c s, server_truthful (do_set_parent c s).
+Proof. intros c s. unfold do_set_parent. apply K_advertise_any. Qed.
+
+(* an update from the parent is advertised to the server as well (generated flag) *)
+Lemma parent_update_flag : parent_update_tells_server = true.
+Proof. reflexivity. Qed.
+
+Lemma K_after_announce : forall c s, (is_parent c s = false -> server_truthful s) -> server_truthful (after_announce c s).
+Proof.
+  intros c s H. unfold after_announce. rewrite parent_update_flag. destruct (is_parent c s); [apply K_advertise_any|].
+  specialize (H eq_refl).
   destruct (find_peer c s) as [p|]; [|exact H]. destruct (complete p); [|exact H].
-  destruct (is_none (parent s)); [apply K_do_set_parent | apply K_close_peer; exact H].
+  destruct (take_as_parent _ _); [apply K_do_set_parent | apply K_close_peer; exact H].
 Qed.
 
 Lemma kfr_upd_peer : forall c f s, is_parent c s = false -> (forall q, pc (f q) = pc q) -> kfr s (upd_peer c f s).
@@ -850,9 +869,9 @@ Proof.
   intros c s H. unfold closing. apply existsb_exists. exists (KUnset c). split; [exact H | apply Nat.eqb_refl].
 Qed.
 
-Lemma K_step : forall s e, base s -> server_truthful s -> parent_updates s e = false -> server_truthful (step s e).
+Lemma K_step : forall s e, base s -> server_truthful s -> server_truthful (step s e).
 Proof.
-  intros s0 e B0 H0 Hn.
+  intros s0 e B0 H0.
   assert (H : server_truthful (set_outs [] s0)) by (eapply kfr_K; [|exact H0]; apply kfr_fields; reflexivity).
   assert (B : base (set_outs [] s0)) by (eapply base_exc_eq; [|exact B0]; unfold base_eq; cbn; tauto).
   unfold step. set (s := set_outs [] s0) in *. destruct e.
@@ -873,14 +892,14 @@ Proof.
     unfold add_child. destruct (session (set_children (children s1' ++ [c]) s1'));
       (eapply kfr_K; [|exact K1]; apply kfr_fields; reflexivity).
   - (* BranchLevel *)
-    simpl in Hn. unfold on_branch_level. destruct (registered c s && live c s); [|exact H].
-    apply K_after_announce; [|exact Hn]. eapply kfr_K; [|exact H]. apply kfr_upd_peer; [exact Hn | reflexivity].
+    unfold on_branch_level. destruct (registered c s && live c s); [|exact H].
+    apply K_after_announce. intros P. eapply kfr_K; [|exact H]. apply kfr_upd_peer; [exact P | reflexivity].
   - (* BranchRoot *)
-    simpl in Hn. unfold on_branch_root. destruct (negb (live c s)); [exact H|].
+    unfold on_branch_root. destruct (negb (live c s)); [exact H|].
     destruct (find_peer c s) as [p|]; [|exact H].
-    assert (U : server_truthful (upd_peer c (fun p0 => mkPeer (pc p0) (pname p0) (plevel p0) (Some r)) s)).
-    { eapply kfr_K; [|exact H]. apply kfr_upd_peer; [exact Hn | reflexivity]. }
-    destruct (proot p) as [r0|]; [destruct (Nat.eqb r0 r); [exact H|]|]; apply K_after_announce; assumption.
+    assert (U : server_truthful (after_announce c (upd_peer c (fun p0 => mkPeer (pc p0) (pname p0) (plevel p0) (Some r)) s))).
+    { apply K_after_announce. intros P. eapply kfr_K; [|exact H]. apply kfr_upd_peer; [exact P | reflexivity]. }
+    destruct (proot p) as [r0|]; [destruct (Nat.eqb r0 r); [exact H|]|]; exact U.
   - apply K_close_peer; exact H.
   - eapply kfr_K; [|exact H]. apply kfr_fields; reflexivity.
   - eapply kfr_K; [|exact H]. apply kfr_fields; reflexivity.
@@ -901,24 +920,15 @@ Qed.
 Lemma K_init : server_truthful init.
 Proof. unfold server_truthful, init. cbn. discriminate. Qed.
 
-Lemma told_server_run : forall evs s, base s -> server_truthful s ->
-  along (fun s e => negb (parent_updates s e)) s evs = true -> server_truthful (run s evs).
+Lemma told_server_run : forall evs s, base s -> server_truthful s -> server_truthful (run s evs).
 Proof.
-  induction evs as [|e evs IH]; intros s B H A; simpl in *; [exact H|].
-  apply andb_true_iff in A. destruct A as [A1 A2]. apply negb_true_iff in A1.
-  apply IH; [apply base_step; exact B | apply K_step; assumption | exact A2].
+  induction evs as [|e evs IH]; intros s B H; simpl in *; [exact H|].
+  apply IH; [apply base_step; exact B | apply K_step; assumption].
 Qed.
 
-(* F11: the parent announces a new level; the children are told, the server is not *)
+(* the history that left the server with stale values before F11 was repaired *)
 Definition f11_witness : list event :=
   [SessionInit; PeerInit 1%nat 1%nat true; BranchLevel 1%nat 3; BranchRoot 1%nat 5%nat; BranchLevel 1%nat 5].
-
-Lemma told_server_refuted : exists evs, ~ server_truthful (run init evs).
-Proof.
-  exists f11_witness. unfold server_truthful. intros H.
-  assert (Hs : session (run init f11_witness) = true) by (vm_compute; reflexivity).
-  specialize (H Hs). vm_compute in H. discriminate.
-Qed.
 
 (* ------------------------------------------------------------------ the generated child limit *)
 Lemma child_limit_spec : forall speed mn rt, 0 <= speed -> 0 < rt ->
@@ -936,4 +946,354 @@ Proof.
     replace (1 * (rt * 1 * 1024)) with (rt * 1024) by lia. replace (speed * (1 * 10 * 1)) with (speed * 10) by lia.
     assert (P : 0 < rt * 1024) by lia.
     pose proof (Z.mul_div_le (speed * 10) (rt * 1024) P). pose proof (Z.mul_succ_div_gt (speed * 10) (rt * 1024) P). lia.
+Qed.
+
+(* ------------------------------------------------------------------ what the children were told *)
+(* [tellinv]: no handler is suspended unless the server write side is held; when nothing is
+   suspended every live child was last told the current position; when the last suspended handler
+   is an _unset_parent there is no parent (so that the level 0 / own name it will send is right) *)
+Definition tellinv (s : state) : Prop :=
+  (held s = false -> pend s = []) /\
+  (pend s = [] -> children_truthful s) /\
+  (forall c ks, pend s = ks ++ [KUnset c] -> parent s = None).
+
+Lemma position_no_parent : forall s, parent s = None -> position s = (0, me).
+Proof. intros s E. unfold position. rewrite E. reflexivity. Qed.
+
+Lemma lookup_cons : forall c v x s, lookup_told x (set_told_child ((c, v) :: told_child s) s)
+  = if Nat.eqb c x then Some v else lookup_told x s.
+Proof. intros. unfold lookup_told. cbn. destruct (Nat.eqb c x); reflexivity. Qed.
+
+Lemma lookup_tell_child : forall v s c x,
+  lookup_told x (tell_child v s c) = if Nat.eqb c x && live c s then Some v else lookup_told x s.
+Proof.
+  intros. unfold tell_child. destruct (live c s); [|rewrite andb_false_r; reflexivity].
+  rewrite andb_true_r. unfold emit, lookup_told. cbn. destruct (Nat.eqb c x); reflexivity.
+Qed.
+
+Lemma lookup_fold_tell : forall v l s x,
+  lookup_told x (fold_left (tell_child v) l s) = if memn x l && live x s then Some v else lookup_told x s.
+Proof.
+  intros v l. induction l as [|c l IH]; intros s x; simpl; [reflexivity|].
+  rewrite IH. rewrite (same_tree_live _ _ x (same_tree_tell_child v s c)). rewrite lookup_tell_child.
+  unfold memn at 2. cbn [existsb]. fold (memn x l). rewrite (Nat.eqb_sym x c).
+  destruct (Nat.eqb c x) eqn:E; cbn [orb andb].
+  - apply Nat.eqb_eq in E. subst c. destruct (live x s); [rewrite andb_true_r|rewrite andb_false_r]; [destruct (memn x l)|]; reflexivity.
+  - reflexivity.
+Qed.
+
+Lemma truthful_tell_children : forall v s, v = position s -> children_truthful (tell_children v s).
+Proof.
+  intros v s E. pose proof (same_tree_tell_children v s) as T. unfold children_truthful. intros c Hc L.
+  rewrite (same_tree_position _ _ T). rewrite (same_tree_live _ _ c T) in L.
+  destruct T as (_ & _ & Ec & _). rewrite Ec in Hc. unfold tell_children. rewrite lookup_fold_tell.
+  apply memn_In in Hc. rewrite Hc, L. cbn. congruence.
+Qed.
+
+(* frame: the truth of what the children were told is not affected *)
+Definition tfr (s s' : state) : Prop :=
+  incl (children s') (children s) /\
+  (forall c, In c (children s') -> live c s' = true -> live c s = true) /\
+  (forall c, In c (children s') -> lookup_told c s' = lookup_told c s) /\
+  position s' = position s.
+
+Lemma tfr_truthful : forall s s', tfr s s' -> children_truthful s -> children_truthful s'.
+Proof.
+  unfold tfr, children_truthful. intros s s' (A & B & C & D) H c Hc L. rewrite (C c Hc), D. apply H; [apply A; exact Hc | apply B; assumption].
+Qed.
+
+Definition jfr (s s' : state) : Prop := held s' = held s /\ pend s' = pend s /\ parent s' = parent s /\ tfr s s'.
+
+Lemma jfr_tellinv : forall s s', jfr s s' -> tellinv s -> tellinv s'.
+Proof.
+  unfold jfr, tellinv. intros s s' (E1 & E2 & E3 & T) (J1 & J2 & J3). rewrite E1, E2, E3. split; [exact J1|split; [|exact J3]].
+  intros E. eapply tfr_truthful; [exact T | apply J2; exact E].
+Qed.
+
+Lemma jfr_trans : forall a b c, jfr a b -> jfr b c -> jfr a c.
+Proof.
+  unfold jfr, tfr. intros a b c (A1 & A2 & A3 & A4 & A5 & A6 & A7) (B1 & B2 & B3 & B4 & B5 & B6 & B7).
+  split; [congruence|split; [congruence|split; [congruence|]]]. split; [|split; [|split]].
+  - intros x Hx. apply A4, B4, Hx.
+  - intros x Hx L. apply A5; [apply B4; exact Hx | apply B5; assumption].
+  - intros x Hx. rewrite (B6 x Hx). apply A6. apply B4; exact Hx.
+  - congruence.
+Qed.
+
+(* frame from equal fields *)
+Lemma jfr_fields : forall s s', held s' = held s -> pend s' = pend s -> parent s' = parent s -> children s' = children s ->
+  peers s' = peers s -> told_child s' = told_child s -> (forall c, live c s' = true -> live c s = true) -> jfr s s'.
+Proof.
+  intros s s' E1 E2 E3 E4 E5 E6 L. unfold jfr, tfr. split; [exact E1|split; [exact E2|split; [exact E3|]]].
+  split; [rewrite E4; apply incl_refl|]. split; [intros c _; apply L|]. split.
+  - intros c _. unfold lookup_told. rewrite E6. reflexivity.
+  - unfold position, find_peer. rewrite E3, E5. reflexivity.
+Qed.
+
+Lemma jfr_same_tree : forall s s', same_tree s s' -> told_child s' = told_child s -> jfr s s'.
+Proof.
+  intros s s' T E. pose proof T as (_ & E1 & E2 & E3 & E4 & _ & _ & _ & E5 & E6).
+  apply jfr_fields; try assumption. intros c. unfold live. rewrite E4. tauto.
+Qed.
+
+Lemma told_child_tell_server : forall s, told_child (tell_server s) = told_child s.
+Proof. intros. unfold tell_server. destruct (session s); reflexivity. Qed.
+
+Lemma jfr_finish_close : forall c s, is_parent c s = false -> jfr s (finish_close c s).
+Proof.
+  intros c s P. unfold jfr. split; [reflexivity|split; [reflexivity|split; [reflexivity|]]]. unfold tfr. split; [|split; [|split]].
+  - apply shrinks_finish_close.
+  - intros x _ L. exact L.
+  - intros x _. reflexivity.
+  - destruct (kfr_finish_close c s P) as (_ & _ & _ & E). exact E.
+Qed.
+
+Lemma jfr_drop_emit : forall c o s, jfr s (drop_conn c (emit o s)).
+Proof.
+  intros. apply jfr_fields; try reflexivity. intros x. unfold live, drop_conn, emit. cbn. intros M. apply live_without in M. tauto.
+Qed.
+
+(* _notify_server_of_parent + children: establishes the invariant from its first clause alone *)
+Lemma tellinv_advertise : forall s, session s = true -> (held s = false -> pend s = []) -> tellinv (advertise s).
+Proof.
+  intros s Hs J1. pose proof (same_tree_tell_server s) as T. pose proof T as (_ & _ & _ & _ & _ & _ & _ & _ & Eh & Ep).
+  destruct (advertise_cases s) as [[E _]|[(_ & Hh & E)|(_ & Hh & E)]]; [congruence| |]; rewrite E.
+  - unfold tellinv, push. cbn. split; [intros Hf; congruence|]. split.
+    + intros Hn. apply app_eq_nil in Hn. destruct Hn; discriminate.
+    + intros c ks Hk. apply app_inj_tail in Hk. destruct Hk; discriminate.
+  - rewrite Eh in Hh. specialize (J1 Hh).
+    pose proof (same_tree_notify_children (tell_server s)) as T2. pose proof T2 as (_ & _ & _ & _ & _ & _ & _ & _ & Eh2 & Ep2).
+    unfold tellinv. rewrite Eh2, Ep2, Eh, Ep, J1. split; [reflexivity|]. split.
+    + intros _. unfold notify_children. destruct T as (Es & _). rewrite Es, Hs. apply truthful_tell_children. reflexivity.
+    + intros c ks Hk. destruct ks; discriminate.
+Qed.
+
+Lemma tellinv_on_closed : forall c s, tellinv s -> session s = true -> tellinv (on_closed c s).
+Proof.
+  intros c s J Hs. unfold on_closed. destruct (is_parent c s) eqn:P.
+  - cbn [session set_parent]. rewrite Hs.
+    pose proof (same_tree_tell_server (set_parent None s)) as T. pose proof T as (_ & Epar & _ & _ & _ & _ & _ & _ & Eh & Ep).
+    destruct J as (J1 & _ & _).
+    destruct (held (tell_server (set_parent None s))) eqn:Hh.
+    + unfold tellinv, push. cbn. rewrite Hh, Epar. cbn. split; [discriminate|]. split; [|reflexivity].
+      intros Hn. apply app_eq_nil in Hn. destruct Hn; discriminate.
+    + symmetry in Eh. cbn in Eh. specialize (J1 Eh).
+      set (s2 := tell_server (set_parent None s)) in *.
+      assert (Pn : parent (tell_children (0, me) s2) = None).
+      { destruct (same_tree_tell_children (0, me) s2) as (_ & E & _). rewrite E, Epar. reflexivity. }
+      assert (TT : tellinv (tell_children (0, me) s2)).
+      { pose proof (same_tree_tell_children (0, me) s2) as T2. pose proof T2 as (_ & _ & _ & _ & _ & _ & _ & _ & Eh2 & Ep2).
+        assert (Ep' : pend s2 = []) by (rewrite Ep; exact J1).
+        unfold tellinv. rewrite Eh2, Ep2, Ep'. split; [reflexivity|]. split.
+        - intros _. apply truthful_tell_children. symmetry. apply position_no_parent. rewrite Epar. reflexivity.
+        - intros x ks Hk. destruct ks; discriminate. }
+      eapply jfr_tellinv; [|exact TT]. apply jfr_finish_close. unfold is_parent. rewrite Pn. reflexivity.
+  - eapply jfr_tellinv; [apply jfr_finish_close; exact P | exact J].
+Qed.
+
+Lemma session_drop_emit : forall c o s, session (drop_conn c (emit o s)) = session s.
+Proof. reflexivity. Qed.
+
+Lemma tellinv_close_peer : forall c s, tellinv s -> session s = true -> tellinv (close_peer c s).
+Proof.
+  intros c s J Hs. unfold close_peer. destruct (live c s); [|exact J].
+  apply tellinv_on_closed; [|exact Hs]. eapply jfr_tellinv; [apply jfr_drop_emit | exact J].
+Qed.
+
+Lemma tellinv_do_set_parent : forall c s, (held s = false -> pend s = []) -> session s = true -> tellinv (do_set_parent c s).
+Proof. intros c s J1 Hs. unfold do_set_parent. apply tellinv_advertise; [exact Hs | exact J1]. Qed.
+
+Lemma tellinv_after_announce : forall c s, (is_parent c s = false -> tellinv s) -> (held s = false -> pend s = []) ->
+  session s = true -> tellinv (after_announce c s).
+Proof.
+  intros c s J J1 Hs. unfold after_announce. rewrite parent_update_flag. destruct (is_parent c s); [apply tellinv_advertise; assumption|].
+  specialize (J eq_refl).
+  destruct (find_peer c s) as [p|]; [|exact J]. destruct (complete p); [|exact J].
+  destruct (take_as_parent _ _); [apply tellinv_do_set_parent; assumption | apply tellinv_close_peer; assumption].
+Qed.
+
+Lemma jfr_upd_peer : forall c f s, is_parent c s = false -> (forall q, pc (f q) = pc q) -> jfr s (upd_peer c f s).
+Proof.
+  intros c f s P F. unfold jfr. split; [reflexivity|split; [reflexivity|split; [reflexivity|]]]. unfold tfr.
+  split; [apply incl_refl|]. split; [intros x _ L; exact L|]. split; [intros x _; reflexivity|].
+  destruct (kfr_upd_peer c f s P F) as (_ & _ & _ & E). exact E.
+Qed.
+
+Lemma session_on_closed : forall c s, session (on_closed c s) = session s.
+Proof.
+  intros c s. unfold on_closed. destruct (is_parent c s); [|reflexivity].
+  cbn [session set_parent]. destruct (session s) eqn:Hs; [|exact Hs].
+  destruct (held (tell_server (set_parent None s))).
+  - unfold push. cbn. destruct (same_tree_tell_server (set_parent None s)) as (E & _). rewrite E. exact Hs.
+  - unfold finish_close. cbn. destruct (same_tree_tell_children (0, me) (tell_server (set_parent None s))) as (E & _).
+    destruct (same_tree_tell_server (set_parent None s)) as (E2 & _). rewrite E, E2. exact Hs.
+Qed.
+
+Lemma tellinv_fold_on_closed : forall cs s, tellinv s -> session s = true ->
+  tellinv (fold_left (fun a c => on_closed c a) cs s) /\ session (fold_left (fun a c => on_closed c a) cs s) = true.
+Proof.
+  induction cs as [|c cs IH]; intros s J Hs; simpl; [tauto|].
+  apply IH; [apply tellinv_on_closed; assumption | rewrite session_on_closed; exact Hs].
+Qed.
+
+Lemma tellinv_reset : forall s, tellinv s -> session s = true -> tellinv (reset s).
+Proof.
+  intros s J Hs. unfold reset.
+  set (cs := filter (fun c => live c s) (children s)).
+  set (s1 := emit (map OClose cs) (set_conns (filter (fun x => negb (memn x cs)) (conns s)) s)).
+  assert (J1 : tellinv s1).
+  { eapply jfr_tellinv; [|exact J]. subst s1. apply jfr_fields; try reflexivity.
+    intros x. unfold live, emit. cbn. intros M. apply memn_filter in M. tauto. }
+  destruct (tellinv_fold_on_closed cs s1 J1 Hs) as [J2 Hs2].
+  destruct (parent (fold_left (fun a c => on_closed c a) cs s1)); [apply tellinv_close_peer; assumption | exact J2].
+Qed.
+
+Lemma cont_frame : forall k s, session (run_cont s k) = session s /\ pend (run_cont s k) = pend s /\
+  held (run_cont s k) = held s /\ parent (run_cont s k) = parent s.
+Proof.
+  intros [|c] s; simpl.
+  - destruct (same_tree_notify_children s) as (A & B & _ & _ & _ & _ & _ & _ & C & D). tauto.
+  - unfold finish_close. cbn. destruct (same_tree_tell_children (0, me) s) as (A & B & _ & _ & _ & _ & _ & _ & C & D). tauto.
+Qed.
+
+Lemma fold_cont_frame : forall ks s, session (fold_left run_cont ks s) = session s /\ pend (fold_left run_cont ks s) = pend s /\
+  held (fold_left run_cont ks s) = held s /\ parent (fold_left run_cont ks s) = parent s.
+Proof.
+  induction ks as [|k ks IH]; intros s; simpl; [tauto|].
+  destruct (IH (run_cont s k)) as (A & B & C & D). destruct (cont_frame k s) as (A' & B' & C' & D'). repeat split; congruence.
+Qed.
+
+Lemma tellinv_release : forall s, tellinv s -> session s = true -> tellinv (release s).
+Proof.
+  intros s (J1 & J2 & J3) Hs. unfold release.
+  set (s0 := set_pend [] (set_held false s)).
+  destruct (pend s) as [|k0 ks0] eqn:Ep.
+  - simpl. unfold tellinv. cbn. split; [reflexivity|]. split; [|intros c ks Hk; destruct ks; discriminate].
+    intros _. eapply tfr_truthful; [|apply J2; reflexivity]. unfold tfr. cbn.
+    split; [apply incl_refl|]. split; [intros c _ L; exact L|]. split; [intros c _; reflexivity | reflexivity].
+  - destruct (exists_last (l := k0 :: ks0)) as (ks & k & Ek); [discriminate|]. rewrite Ek. rewrite fold_left_app. simpl.
+    set (m := fold_left run_cont ks s0).
+    destruct (fold_cont_frame ks s0) as (Ms & Mp & Mh & Mpar). fold m in Ms, Mp, Mh, Mpar. cbn in Ms, Mp, Mh, Mpar.
+    destruct k as [|c]; simpl.
+    + pose proof (same_tree_notify_children m) as T. pose proof T as (_ & _ & _ & _ & _ & _ & _ & _ & Eh & Epd).
+      unfold tellinv. rewrite Eh, Epd, Mh, Mp. split; [reflexivity|]. split; [|intros c ks' Hk; destruct ks'; discriminate].
+      intros _. unfold notify_children. rewrite Ms, Hs. apply truthful_tell_children. reflexivity.
+    + assert (Pn : parent m = None) by (rewrite Mpar; apply (J3 c ks); rewrite <- Ek; reflexivity).
+      assert (TT : tellinv (tell_children (0, me) m)).
+      { pose proof (same_tree_tell_children (0, me) m) as T2. pose proof T2 as (_ & _ & _ & _ & _ & _ & _ & _ & Eh2 & Ep2).
+        unfold tellinv. rewrite Eh2, Ep2, Mh, Mp. split; [reflexivity|]. split.
+        - intros _. apply truthful_tell_children. symmetry. apply position_no_parent. exact Pn.
+        - intros x ks' Hk. destruct ks'; discriminate. }
+      eapply jfr_tellinv; [|exact TT]. apply jfr_finish_close. unfold is_parent.
+      destruct (same_tree_tell_children (0, me) m) as (_ & E & _). rewrite E, Pn. reflexivity.
+Qed.
+
+Lemma lookup_filter_other : forall c x l, x <> c ->
+  find (fun e : conn * (Z * name) => Nat.eqb (fst e) x) (filter (fun e => negb (Nat.eqb (fst e) c)) l)
+  = find (fun e => Nat.eqb (fst e) x) l.
+Proof.
+  intros c x l N. induction l as [|e l IH]; simpl; [reflexivity|].
+  destruct (Nat.eqb (fst e) c) eqn:E; simpl.
+  - apply Nat.eqb_eq in E. destruct (Nat.eqb (fst e) x) eqn:E2; [apply Nat.eqb_eq in E2; congruence | exact IH].
+  - rewrite IH. reflexivity.
+Qed.
+
+Lemma tellinv_step : forall s e, tree_inv s -> base s -> tellinv s -> session_present s e = true -> tellinv (step s e).
+Proof.
+  intros s0 e T0 B0 J0 Hc.
+  assert (J : tellinv (set_outs [] s0)) by (eapply jfr_tellinv; [|exact J0]; apply jfr_fields; try reflexivity; tauto).
+  assert (T : tree_inv (set_outs [] s0)) by (eapply tree_inv_eq; [|exact T0]; unfold tree_eq; cbn; tauto).
+  assert (B : base (set_outs [] s0)) by (eapply base_exc_eq; [|exact B0]; unfold base_eq; cbn; tauto).
+  unfold step. set (s := set_outs [] s0) in *.
+  assert (Hss : session s = session s0) by reflexivity.
+  destruct e; simpl in Hc.
+  - (* SessionInit *)
+    eapply jfr_tellinv; [|exact J]. eapply jfr_trans.
+    + apply (jfr_fields s (set_session true s)); try reflexivity; tauto.
+    + apply jfr_same_tree; [apply same_tree_tell_server | apply told_child_tell_server].
+  - eapply jfr_tellinv; [|exact J]. apply jfr_fields; try reflexivity; tauto.
+  - eapply jfr_tellinv; [|exact J]. apply jfr_fields; try reflexivity; tauto.
+  - eapply jfr_tellinv; [|exact J]. apply jfr_fields; try reflexivity; tauto.
+  - (* PeerInit *)
+    rewrite <- Hss in Hc.
+    unfold on_peer_init. destruct (registered c s || live c s || closing c s) eqn:G; [exact J|].
+    apply orb_false_iff in G. destruct G as [G _]. apply orb_false_iff in G. destruct G as [_ L].
+    match goal with |- tellinv (if requested then ?s1 else _) => set (s1' := s1) end.
+    assert (Nc : ~ In c (children s)).
+    { intro Hin. destruct T as (_ & T2 & _). apply T2 in Hin. congruence. }
+    assert (Np : is_parent c s = false).
+    { unfold is_parent. destruct (parent s) as [p|] eqn:E; [|reflexivity]. apply Nat.eqb_neq. intro; subst p.
+      destruct B as (A & _). specialize (A c E (fun x => x)). congruence. }
+    assert (F1 : jfr s s1').
+    { subst s1'. unfold jfr. cbn. split; [reflexivity|split; [reflexivity|split; [reflexivity|]]]. unfold tfr. cbn.
+      split; [apply incl_refl|]. split; [|split].
+      - intros x Hx Lx. unfold live in *. cbn in Lx. apply memn_In in Lx. apply in_app_or in Lx.
+        destruct Lx as [Lx|[Lx|[]]]; [apply memn_In; exact Lx | subst x; tauto].
+      - intros x Hx. unfold lookup_told. cbn. rewrite lookup_filter_other; [reflexivity|]. intro; subst x; tauto.
+      - apply position_eq; [reflexivity|]. intros p E. unfold find_peer. cbn. apply find_app_other. cbn.
+        intro; subst p. unfold is_parent in Np. rewrite E, Nat.eqb_refl in Np. discriminate. }
+    assert (J1 : tellinv s1') by (eapply jfr_tellinv; [exact F1 | exact J]).
+    destruct requested; [exact J1|].
+    destruct (check_new_child _ _ _ _); [exact J1 | apply tellinv_close_peer; [exact J1 | exact Hc]|].
+    unfold add_child. cbn [session set_children]. change (session s1') with (session s). rewrite Hc.
+    destruct J1 as (A1 & A2 & A3). unfold tellinv, emit. cbn. split; [exact A1|split; [|exact A3]].
+    intros Ep. specialize (A2 Ep). unfold children_truthful in *. cbn.
+    set (s2 := set_children (children s ++ [c]) s1') in *.
+    assert (Pe : forall t o, position (set_outs o (set_told_child t s2)) = position s1') by reflexivity.
+    intros x Hx Lx. rewrite Pe. unfold lookup_told. cbn.
+    apply in_app_or in Hx. destruct Hx as [Hx|[Hx|[]]].
+    + assert (Nx : Nat.eqb c x = false) by (apply Nat.eqb_neq; intro; subst x; tauto). rewrite Nx.
+      apply (A2 x Hx). exact Lx.
+    + subst x. rewrite Nat.eqb_refl. reflexivity.
+  - (* BranchLevel *)
+    rewrite <- Hss in Hc. unfold on_branch_level. destruct (registered c s && live c s); [|exact J].
+    destruct J as (J1 & J2 & J3).
+    apply tellinv_after_announce; [|exact J1|exact Hc].
+    intros P. eapply jfr_tellinv; [apply jfr_upd_peer; [exact P | reflexivity]|]. split; [exact J1|split; assumption].
+  - (* BranchRoot *)
+    rewrite <- Hss in Hc. unfold on_branch_root. destruct (negb (live c s)); [exact J|].
+    destruct (find_peer c s) as [p|]; [|exact J].
+    assert (U : tellinv (after_announce c (upd_peer c (fun p0 => mkPeer (pc p0) (pname p0) (plevel p0) (Some r)) s))).
+    { destruct J as (J1 & J2 & J3). apply tellinv_after_announce; [|exact J1|exact Hc].
+      intros P. eapply jfr_tellinv; [apply jfr_upd_peer; [exact P | reflexivity]|]. split; [exact J1|split; assumption]. }
+    destruct (proot p) as [r0|]; [destruct (Nat.eqb r0 r); [exact J|]|]; exact U.
+  - rewrite <- Hss in Hc. apply tellinv_close_peer; assumption.
+  - eapply jfr_tellinv; [|exact J]. apply jfr_fields; try reflexivity; tauto.
+  - eapply jfr_tellinv; [|exact J]. apply jfr_fields; try reflexivity; tauto.
+  - unfold on_own_stats. destruct (session s); [|exact J].
+    repeat match goal with |- tellinv (if ?b then _ else _) => destruct b end;
+      (eapply jfr_tellinv; [|exact J]; apply jfr_fields; try reflexivity; tauto).
+  - rewrite <- Hss in Hc. apply tellinv_reset; assumption.
+  - (* Hold *)
+    destruct J as (J1 & J2 & J3). unfold tellinv. cbn. split; [discriminate|]. split; [|exact J3].
+    intros E. eapply tfr_truthful; [|apply J2; exact E]. unfold tfr. cbn.
+    split; [apply incl_refl|]. split; [intros c _ L; exact L|]. split; [intros c _; reflexivity | reflexivity].
+  - rewrite <- Hss in Hc. apply tellinv_release; assumption.
+Qed.
+
+Lemma tellinv_init : tellinv init.
+Proof.
+  unfold tellinv, init. cbn. split; [reflexivity|]. split; [|intros c ks Hk; destruct ks; discriminate].
+  intros _ c [].
+Qed.
+
+Lemma tellinv_run : forall evs s, tree_inv s -> base s -> tellinv s -> along session_present s evs = true -> tellinv (run s evs).
+Proof.
+  induction evs as [|e evs IH]; intros s T B J A; simpl in *; [exact J|].
+  apply andb_true_iff in A. destruct A as [A1 A2].
+  apply IH; [apply tree_inv_step; exact T | apply base_step; exact B | apply tellinv_step; assumption | exact A2].
+Qed.
+
+Lemma children_told_run : forall evs, along session_present init evs = true -> pend (run init evs) = [] ->
+  children_truthful (run init evs).
+Proof.
+  intros evs A E. destruct (tellinv_run evs init tree_inv_init base_init tellinv_init A) as (_ & J2 & _). apply J2; exact E.
+Qed.
+
+(* F27: a child admitted while logged out is never told the position *)
+Definition f27_witness : list event := [PeerInit 1%nat 1%nat false; SessionInit].
+Lemma children_told_refuted : exists evs, pend (run init evs) = [] /\ ~ children_truthful (run init evs).
+Proof.
+  exists f27_witness. split; [reflexivity|]. unfold children_truthful. intros H.
+  specialize (H 1%nat). vm_compute in H. specialize (H (or_introl eq_refl) eq_refl). discriminate.
 Qed.
